@@ -315,6 +315,40 @@ def run_case(ctx, case, model=True):
             for s, v in rp.emissions_g_per_s.items():
                 if not close(dec(ans["species"][s.name]), float(np.broadcast_to(np.asarray(v, dtype=float), (n,))[t]), scale=eng.rated_power * 15 / 3600):
                     ctx.fail("correspondence", "species-rate", f"step {t} {s.name}: model {float(dec(ans['species'][s.name]))} impl {v}", where)
+            # the same run point with NO oracle: every curve (consumption, pilot, generator / gearbox efficiency, species) computed by
+            # the model from the case's own points (`engine.modelled`: Pchip.curve, and Comp.invTable behind the generator)
+            if p >= 0 and "rectifier" not in case:
+                def pts_of(c):
+                    return [[enc(a), enc(b)] for a, b in (c if isinstance(c[0], list) else [[1.0, c[0]]])]
+                given = {e["species"]: e["points"] for e in eng_spec.get("emissions", [])}
+                sp_m = [s_ for s_ in sp_names if s_ in given and not (s_ == "NOX" and eng_spec.get("nox", "TIER_2") != "CURVE")]
+                points = {"bsfc": pts_of(eng_spec["bsfc"])}
+                if eng_spec.get("dual"):
+                    points["bpsfc"] = pts_of(eng_spec["dual"]["bspfc"])
+                if kind == "genset":
+                    points["eta_gen"] = pts_of(case["generator"]["curve"])
+                if kind == "geared":
+                    points["eta_gb"] = pts_of(case["gearbox"]["curve"])
+                for s_ in sp_m:
+                    points[s_] = pts_of(given[s_])
+                try:
+                    am = ctx.model.call("engine.modelled", p=enc(p), rated=enc(eng_spec["rated"]), dual=bool(eng_spec.get("dual")), species=sp_m, points=points,
+                                        generator_rated=enc(case["generator"]["rated"]) if kind == "genset" else None,
+                                        gearbox_rated=enc(case["gearbox"]["rated"]) if kind == "geared" else None)
+                except core.ModelReject as e:
+                    ctx.fail("correspondence", "modelled-run-point-rejected", f"{e}", where)
+                    am = None
+                if am is not None:
+                    ctx.count("run_point_without_oracle", kind)
+                    if not close(dec(am["load"]), load):
+                        ctx.fail("correspondence", "modelled-engine-load", f"step {t}: model {float(dec(am['load']))} impl {load}", where)
+                    if not close(dec(am["fuel"]), float(np.broadcast_to(fl[0][2], (n,))[t]), scale=eng.rated_power * 250 / 3.6e6):
+                        ctx.fail("correspondence", "modelled-engine-fuel", f"step {t}: model {float(dec(am['fuel']))} impl {np.broadcast_to(fl[0][2], (n,))[t]}", where)
+                    if eng_spec.get("dual") and len(fl) == 2 and not close(dec(am["pilot"]), float(np.broadcast_to(fl[1][2], (n,))[t]), scale=eng.rated_power * 20 / 3.6e6):
+                        ctx.fail("correspondence", "modelled-pilot-fuel", f"step {t}: model {float(dec(am['pilot']))} impl {np.broadcast_to(fl[1][2], (n,))[t]}", where)
+                    for s, v in rp.emissions_g_per_s.items():
+                        if s.name in sp_m and not close(dec(am["species"][s.name]), float(np.broadcast_to(np.asarray(v, dtype=float), (n,))[t]), scale=eng.rated_power * 15 / 3600):
+                            ctx.fail("correspondence", "modelled-species-rate", f"step {t} {s.name}: model {float(dec(am['species'][s.name]))} impl {v}", where)
         elif kind == "fuel_cell_system":
             s = case["spec"]
 
